@@ -132,3 +132,37 @@ package backend
 //@ func minUint64(a, b) (result)
 //@   props C07 C09
 //@   ensures [min] result <= a && result <= b && (result == a || result == b)
+
+// ---- C08: the compaction floor ----
+
+//@ func getCompactKey(prefix) (result)
+//@   assumed
+//@   ensures [compact-key] is_compact_key(result) && fresh(result)
+
+//@ func (*backend).setCompactRecord(ctx, revision) (err)
+//@   props C08
+//@   requires wf_backend(b) && !batch_open
+//@   modifies ghost.bw_n ghost.bw_kind ghost.bw_key ghost.bw_val ghost.bw_old ghost.bw_ttl ghost.commits ghost.last_batch ghost.last_err ghost.batch_open ghost.floor ghost.floor_set
+//@   ensures [floor-monotone] old(floor_set) ==> floor_set && floor >= old(floor)
+//@   ensures [accepted] err == nil ==> floor_set && floor >= revision
+//@   ensures [closed] !batch_open
+
+//@ func (*backend).compact(ctx, revision) (err)
+//@   props C08
+//@   nosafety
+//@   requires wf_backend(b) && b.scanner != nil && !batch_open
+//@   modifies inferred:(*backend).compact ghost.bw_n ghost.bw_kind ghost.bw_key ghost.bw_val ghost.bw_old ghost.bw_ttl ghost.commits ghost.last_batch ghost.last_err ghost.batch_open ghost.floor ghost.floor_set
+//@   ensures [floor-monotone] old(floor_set) ==> floor_set && floor >= old(floor)
+//@   ensures [accepted] err == nil ==> floor_set && floor >= revision
+//@   loop 0 invariant [floor] (old(floor_set) ==> floor_set && floor >= old(floor)) && floor_set && floor >= revision
+//@   loop 0 invariant [closed] !batch_open
+//@   loop 0 invariant [wf] wf_backend(b) && b.scanner != nil
+//@   loop 0 invariant [borders] forall(j, 0 <= j && j < len(borders), true)
+
+//@ func (*backend).Compact(ctx, revision) (resp, err)
+//@   props C08
+//@   nosafety
+//@   requires wf_backend(b) && b.scanner != nil && b.asyncFifoRetry != nil && !batch_open
+//@   modifies inferred:(*backend).Compact ghost.bw_n ghost.bw_kind ghost.bw_key ghost.bw_val ghost.bw_old ghost.bw_ttl ghost.commits ghost.last_batch ghost.last_err ghost.batch_open ghost.floor ghost.floor_set
+//@   ensures [floor-monotone] old(floor_set) ==> floor_set && floor >= old(floor)
+//@   ensures [accepted] err == nil ==> resp != nil && floor_set && floor >= resp.Header.Revision
